@@ -44,6 +44,11 @@ var snippets = []string{
 	`var big = []; for (var i = 0; i < 200; i++) big[i] = {i: i, s: "v" + i}; big.filter(function(o){ return o.i % 3 == 0 }).length + big.indexOf(big[5])`,
 	`[1, [2, [3]]].toString() + [3, 1, 2].sort() + [1, 2, 3].reverse() + [1, 2, 3].lastIndexOf(3) + [].concat([1], 2, [[3]]).length`,
 	`new Boolean(false) ? 1 : 0`,
+	`function f(a, b) { delete arguments[0]; arguments[1] = 9; a = 5; return String(a) + b + arguments[0] + arguments.length } f(1, 2) + f(3, 4) + f(5)`,
+	`function g(x) { arguments[0] = x + 1; return x } function h2(x, y) { delete arguments[1]; y = 7; return [arguments[1], y, arguments.length].join() } g(1) + h2(1, 2) + g(2) + h2(3, 4)`,
+	`function re() { var r = /a/g; r.test("aa"); return r.lastIndex } re() + "" + re() + re()`,
+	`function mk() { return {get p() { return 1 }, q: [1, 2, {r: 3}]} } var o1 = mk(), o2 = mk(); o1.q[2].r = 9; o1.q.push(4); o2.q[2].r + "" + o2.q.length + (o1.q !== o2.q)`,
+	`var c = 0; function K() { this.v = ++c } K.prototype.get = function () { return this.v }; [new K(), new K(), new K()].map(function (k) { return k.get() }).join()`,
 	`Object.getOwnPropertyNames(Math).length > 10 && Object.getPrototypeOf([]) === Array.prototype && isFinite(1 / 3) && !isNaN(parseFloat("1e3"))`,
 }
 
@@ -178,10 +183,15 @@ func implC20(line string) string {
 			return "template-error"
 		}
 	}
-	// sequential baseline
+	// sequential baseline; for a shared Script/Program the baseline is the SOURCE TEXT compiled afresh on
+	// a fresh runtime, so that a Script changed by an earlier execution shows up as a difference
 	base := make([]string, n)
 	for i := 0; i < n; i++ {
-		base[i] = runOne(mode, progs[i], shared[i], tmpl, reps)
+		bm := mode
+		if mode == "script" || mode == "program" {
+			bm = "fresh"
+		}
+		base[i] = runOne(bm, progs[i], shared[i], tmpl, reps)
 	}
 	before := raceLogSize()
 	got := make([]string, n)
